@@ -3,10 +3,16 @@
 Oracles: (1) seeds == label/tag occurrence (ref); (2) reachability / once / id order / graph order;
 (3) per-graph budgets; (4) decomposition over graphs; (5) exact differential vs. the reference propagator
 (perf caps off); (6) store never modified; plus purity (same call twice, text/cfg untouched).
+
+Sub-checks: `rule` (one call on a fresh state, decomposed per graph), `seq` (2-5 calls on ONE engine state with the
+stage cache on: repeated identical calls, slice caps / active graphs / clock changing, store edits in between; every
+call is compared with the reference), `turn` (real scheduled turns: the T1 the turn used and its t1.jsonl record).
 """
 from __future__ import annotations
 
+import bisect
 import copy
+import json
 from types import SimpleNamespace
 
 from hypothesis import strategies as st
@@ -16,20 +22,112 @@ from harness import world
 from harness.models import t1 as ref
 
 LEVEL = "exploration"
-RULE = ("Hypothesis-generated worlds: 1-4 concept graphs (0-8 nodes, cycles, self-loops, parallel edges, negative/"
-        "zero weights, unknown relations, tags), input text biased to labels of nodes with out-edges, T1 config over "
-        "its own surface (decay modes, multipliers, radius/iter/layer/relax caps in {0,1,tight,loose,None}, node and "
-        "queue budgets, slice caps, perf caps on/off) or a validated config; sub-check seq: 2-4 calls on one state with the "
-        "stage cache ON and slice caps changing between calls (non-trivial = a cache hit and differing caps). Non-trivial = some seed has an out-edge "
-        "AND some cap binds (a *_hits counter > 0, pops == budget, or relax cap reached). Distinct = digest of "
-        "(graphs, text, config, slice caps).")
-ASSUMPTIONS = ["reference propagator in harness/models/t1.py written from the documented rule (float64, same "
-               "operation order as documented: w*weight*mult*decay); exact equality of ids and counters",
+RULE = ("Hypothesis-generated worlds: 1-4 (sometimes 11-13) active concept graphs plus inactive ones in the same store, "
+        "store order != active order, 0-8 nodes sharing ids across graphs (cycles, self-loops, parallel edges, ghost "
+        "sources/targets, negative/zero weights, unknown relations, tags incl. None/duplicates/non-strings, multi-word and "
+        "punctuated labels, a keyword planted in several graphs), input text biased to labels of nodes with out-edges "
+        "(case variants, newline/tab/comma/no separators), T1 config over its own surface (decay modes incl. partial and "
+        "string-valued dicts, multipliers incl. {}, radius/iter/layer/relax caps in {0,1,tight,loose,None}, node and queue "
+        "budgets, result cache off/on/absent/0 entries/ttl 0) or a validated config (numbers also as strings), slice caps "
+        "(0, None values, foreign keys, attribute None), perf caps/dedupe, perf.t1.cache (bytes cache), legacy queue_cap, "
+        "perf.parallel.t1 fan-out, cfg as attribute-dict or Config object, state as dict or read-only view, edges built by "
+        "upsert_edges or apply_deltas, ctx as namespace or the engine's TurnCtx. Sub-check seq: 2-5 calls on one state with "
+        "the stage cache ON; a case-level mode picks what moves between the calls: repeat (identical calls over >= 2 graphs "
+        "seeded by the same text), caps (slice caps), cfg (ONE t1 leaf patched per call, perf gate toggled), edits (ONE family "
+        "of store edit: edge refresh / rewire / revert / new edge / relabel / new node via apply_deltas, upsert_*, "
+        "read-modify-write, biased to edges near a seed), all (mixed); active graphs permuted/subset per call, logical clock "
+        "absent / 0 / callable / jumping past the TTL, the caller extending the list it was handed. Sub-check turn: 2-3 real "
+        "orchestrator turns (two agents, scheduler budgets t1_pops/t1_iters incl. 0 and None) — the T1 result the turn used "
+        "and its t1.jsonl record against the reference under the derived slice caps. Non-trivial (rule) = some seed has an "
+        "out-edge AND some cap binds; (seq) = a cache hit and (differing caps, an edit, or >= 2 graphs served from the "
+        "cache); (turn) = scheduler on and a slice cap binds. Distinct = digest of the case.")
+ASSUMPTIONS = ["reference propagator written from the documented rule (float64, same operation order as documented: "
+               "w*weight*mult*decay; frontier kept as a sorted list via bisect — an adjusted copy of harness/models/t1.py "
+               "lives in this module for speed); exact equality of ids and counters",
                "with perf caps on (frontier/visited/dedupe) only the budget/reachability/decomposition predicates "
-               "are asserted, not the exact differential (caps legitimately prune)",
-               "T1 stage cache disabled here (cache transparency is C05)"]
+               "are asserted, not the exact differential (caps legitimately prune); in seq every call under perf caps "
+               "must equal the same call on a cold state (each call obeys the rule whatever the stage kept)",
+               "case-insensitive = str.lower() containment (no casefold-only characters are generated)",
+               "active graph ids always exist in the store (get_graph on an unknown id creates it by design)"]
 
 COUNTERS = ["pops", "iters", "propagations", "radius_cap_hits", "layer_cap_hits", "node_budget_hits"]
+EPS = 1e-6
+
+
+# ---------------------------------------------------------------- reference (adjusted copy: sorted frontier via bisect)
+
+def ref_one_graph(spec, text, cfg, slice_caps=None, info=None):
+    """Same rule as harness.models.t1.ref_one_graph; the best-first frontier is kept sorted with bisect.insort instead of
+    re-sorting on every pop (identical pop order: smallest (-|c|, node, c) first)."""
+    seeds = ref.ref_seeds(spec, text)
+    if not seeds:
+        return [], dict(ref.ZERO)
+    mult = cfg.get("edge_type_mult", ref.DEFAULT_MULT)
+    nb = float(cfg.get("node_budget", 1.5))
+    rc = int(cfg.get("radius_cap", 4))
+    relax = cfg.get("relax_cap")
+    qb, layers = ref.effective_caps(cfg, slice_caps)
+    emap = {}
+    for e in spec["edges"]:
+        emap[e["id"]] = e
+    out = {}
+    for e in emap.values():
+        out.setdefault(e["src"], []).append((e["dst"], float(e["w"]), e["rel"]))
+    acc, dist, frontier = {}, {}, []
+    for s in seeds:
+        frontier.append((-1.0, s, 1.0))
+        acc[s] = acc.get(s, 0.0) + 1.0
+        dist[s] = 0
+    frontier.sort()
+    peak = len(frontier)
+    dec = cfg.get("decay")
+    dmemo = {}
+    pops = props = lp = rh = lh = nh = 0
+    stop = False
+    while frontier and pops < qb and not stop:
+        _, u, w = frontier.pop(0)
+        pops += 1
+        layer = dist.get(u, 0)
+        if layer > 0 and layer > lp:
+            lp = layer
+            if lp > layers:
+                continue
+        if abs(acc.get(u, 0.0)) >= nb:
+            nh += 1
+            continue
+        for v, ew, rel in out.get(u, []):
+            if relax is not None and props >= int(relax):
+                stop = True
+                break
+            d = dist[u] + 1
+            if d > rc:
+                rh += 1
+                continue
+            if d > layers:
+                lh += 1
+                continue
+            if d not in dmemo:
+                dmemo[d] = ref.decay(d, dec)
+            c = w * ew * float(mult.get(rel, 0.6)) * dmemo[d]
+            if abs(c) < EPS:
+                continue
+            acc[v] = acc.get(v, 0.0) + c
+            props += 1
+            if v not in dist or d < dist[v]:
+                dist[v] = d
+            if abs(acc[v]) < nb:
+                bisect.insort(frontier, (-abs(c), v, c))
+                peak = max(peak, len(frontier))
+            else:
+                nh += 1
+            if relax is not None and props >= int(relax):
+                stop = True
+                break
+    if info is not None:
+        info["peak"] = peak  # largest frontier ever held (a frontier cap at or above it never trims)
+    ids = [n for n in sorted(acc) if abs(acc[n]) >= EPS]
+    return ids, {"pops": pops, "iters": min(lp, layers), "propagations": props, "radius_cap_hits": rh,
+                 "layer_cap_hits": lh, "node_budget_hits": nh}
 
 
 # ---------------------------------------------------------------- strategies
@@ -38,10 +136,72 @@ def _cap(loose):
     return st.one_of(st.sampled_from([0, 1, 2, 3]), st.just(loose))
 
 
+NODE_IDS2 = world.NODE_IDS + ["n2", "n10"]
+EXTRA_LABELS = ["green apple", "c++", "a.b", "KIWI", "éclair", "pea r"]
+_LABELS2 = st.one_of(st.sampled_from(world.VOCAB), st.sampled_from(world.VOCAB), st.just(""), st.sampled_from(["zzz", "Plum", None]),
+                     st.sampled_from(EXTRA_LABELS))
+_TAGS2 = st.one_of(st.lists(st.one_of(st.sampled_from(world.VOCAB), st.sampled_from(["", 3, None, "c++"])), max_size=2),
+                   st.lists(st.one_of(st.sampled_from(world.VOCAB), st.sampled_from(["", 3, None, "c++"])), max_size=2),
+                   st.sampled_from([None, ["fig", "fig"], ["apple", "APPLE", "app"]]))
+_WEIGHTS2 = st.one_of(st.sampled_from([1.0, 0.9, 0.5, 0.25, -0.5, -1.0, 0.0, 1e-7, 2.0, 1]),
+                      st.floats(min_value=-1.5, max_value=1.5, allow_nan=False))
+
+
+@st.composite
+def graph_specs2(draw, max_nodes=8, max_edges=14, min_nodes=0):
+    """As harness.world.graph_specs plus: edges leaving ids that are no node (ghost sources), a second ghost target, tags
+    None / duplicated / equal to the label, labels with spaces and punctuation, ids whose sort order is not numeric."""
+    nids = draw(st.lists(st.sampled_from(NODE_IDS2), min_size=min_nodes, max_size=max_nodes, unique=True))
+    nodes = []
+    for nid in nids:
+        label = draw(_LABELS2)
+        tags = draw(_TAGS2)
+        if tags is not None and label and draw(st.sampled_from([False] * 7 + [True])):
+            tags = list(tags) + [label]  # the node matches through its label AND a tag: still one seed of weight 1
+        nodes.append({"id": nid, "label": label, "tags": tags})
+    edges = []
+    if nids:
+        srcs = st.sampled_from(nids * 6 + ["ghost"])
+        dsts = st.sampled_from(nids * 4 + ["ghost", "ghost", "ghost2"])
+        for j in range(draw(st.integers(0, max_edges))):
+            edges.append({"id": f"e{j}", "src": draw(srcs), "dst": draw(dsts), "w": draw(_WEIGHTS2), "rel": draw(st.sampled_from(world.RELS))})
+    return {"nodes": nodes, "edges": edges}
+
+
+def _kws(n):
+    out = [n["label"]] if n.get("label") else []
+    out += [t for t in (n.get("tags") or []) if isinstance(t, str) and t]
+    return out
+
+
+@st.composite
+def texts2(draw, graphs):
+    """Input text biased towards keywords of nodes with out-edges; several separators and case variants."""
+    words = []
+    for spec in graphs.values():
+        srcs = {e["src"] for e in spec["edges"]}
+        for n in spec["nodes"]:
+            words.extend(_kws(n) * (3 if n["id"] in srcs else 1))
+    pool = words or world.VOCAB
+    chosen = [draw(st.sampled_from(pool)) for _ in range(draw(st.integers(0, 4)))]
+    noise = draw(st.lists(st.sampled_from(["the", "of", "xyz", "PINEAPPLE", "äpfelkuchen", "", "axb", "green", "c"]), max_size=2))
+    parts = draw(st.permutations(chosen + noise))
+    sep = draw(st.sampled_from([" "] * 6 + ["\n", "\t", ", ", ""]))
+    text = sep.join(parts)
+    return draw(st.sampled_from([text, text.upper(), text.lower(), text]))
+
+
 @st.composite
 def t1_cfgs(draw):
-    cfg = {"cache": {"enabled": False}}
-    mode = draw(st.sampled_from(["exp_floor", "exp_floor", "attn_quad", "absent", "empty"]))
+    cfg = {}
+    cache = draw(st.sampled_from(["off"] * 5 + ["on", "absent", "zero"]))
+    if cache == "off":
+        cfg["cache"] = {"enabled": False}
+    elif cache == "on":
+        cfg["cache"] = {"enabled": True, "max_entries": draw(st.sampled_from([1, 2, 512])), "ttl_s": draw(st.sampled_from([0, 300]))}
+    elif cache == "zero":
+        cfg["cache"] = {"max_entries": 0}
+    mode = draw(st.sampled_from(["exp_floor", "exp_floor", "partial", "attn_quad", "attn_quad", "absent", "empty", "partial"]))
     if mode == "exp_floor":
         cfg["decay"] = {"mode": "exp_floor", "rate": draw(st.sampled_from([0.6, 0.9, 0.3, 1.0, 0.0])),
                         "floor": draw(st.sampled_from([0.05, 0.0, 0.5, 1.0]))}
@@ -49,11 +209,17 @@ def t1_cfgs(draw):
         cfg["decay"] = {"mode": "attn_quad", "alpha": draw(st.sampled_from([0.8, 0.0, 2.0, 0.1]))}
     elif mode == "empty":
         cfg["decay"] = {}
+    elif mode == "partial":  # leaves left to their documented defaults, numbers as strings (the validator's "number")
+        cfg["decay"] = draw(st.sampled_from([{"mode": "exp_floor"}, {"mode": "attn_quad"}, {"mode": "attn_quad"}, {"rate": 0.9}, {"floor": 0.5},
+                                             {"mode": "exp_floor", "rate": "0.5", "floor": "0.1"}, {"alpha": 0.1},
+                                             {"mode": "attn_quad", "alpha": "0.5", "rate": 0.0, "floor": 1.0},
+                                             {"mode": "exp_floor", "alpha": 5.0, "rate": 0.8}]))
     if draw(st.booleans()):
         cfg["edge_type_mult"] = draw(st.sampled_from([
             {"supports": 1.0, "associates": 0.6, "contradicts": 0.8},
             {"supports": 1.0, "associates": 1.0, "contradicts": -1.0},
-            {"supports": 0.5}, {"supports": 2.0, "associates": 0.0, "contradicts": 0.8, "weird": 1.0}]))
+            {"supports": 0.5}, {"supports": 2.0, "associates": 0.0, "contradicts": 0.8, "weird": 1.0},
+            {}, {"supports": "0.5", "associates": 1, "weird": "-1"}]))
     if draw(st.booleans()):
         cfg["queue_budget"] = draw(st.sampled_from([0, 1, 2, 3, 5, 8, 10000]))
     if draw(st.booleans()):
@@ -77,7 +243,6 @@ def motif_graph(draw):
     l_short = draw(st.integers(1, 2))
     l_long = l_short + draw(st.integers(1, 2))
     tail = draw(st.integers(1, 2))
-    names = iter(["s", "p1", "p2", "p3", "p4", "q1", "q2", "j", "t1", "t2"])
     nodes = [{"id": "s", "label": "apple", "tags": []}]
     edges = []
 
@@ -110,12 +275,96 @@ def motif_graph(draw):
     return {"nodes": nodes, "edges": edges}, radius
 
 
+GIDS = ["g1", "g2", "G", "γ", "g10", "main"]
+MANY_GIDS = [f"k{i}" for i in range(14)]  # "k10" sorts before "k2"
+SLICE_EXTRA = {"t2_k": 64, "t3_ops": 3, "wall_ms": 200, "quantum_ms": 20}
+
+
 @st.composite
-def cases(draw):
-    ng = draw(st.integers(1, 4))
-    gids = draw(st.lists(st.sampled_from(["g1", "g2", "G", "γ", "g10", "main"]), min_size=ng, max_size=ng, unique=True))
-    graphs = {gid: draw(world.graph_specs()) for gid in gids}
-    text = draw(world.texts_for(graphs))
+def perf_cfgs(draw, force_parallel=False):
+    """perf subtree: caps/dedupe (PR31), bytes cache (PR32), metrics gate, parallel fan-out (PR66) — None when nothing drawn."""
+    perf = {}
+    if draw(st.sampled_from([True, False, False, False])):
+        perf["t1"] = {"caps": {"frontier": draw(st.sampled_from([0, 1, 2, 100])), "visited": draw(st.sampled_from([0, 1, 2, 100]))},
+                      "dedupe_window": draw(st.sampled_from([0, 1, 4]))}
+        if draw(st.integers(0, 2)) == 1:  # a frontier cap alone: exact rule whenever the frontier never outgrows it
+            perf["t1"] = {"caps": {"frontier": draw(st.sampled_from([1, 2, 3, 5, 100]))}}
+        if draw(st.sampled_from([False, False, False, True])):  # legacy spelling (normalised by the validator only)
+            perf["t1"]["queue_cap"] = draw(st.sampled_from([1, 2, 100]))
+            if draw(st.booleans()):
+                del perf["t1"]["caps"]["frontier"]
+        perf["metrics"] = {"report_memory": draw(st.booleans())}
+    if draw(st.sampled_from([True] + [False] * 5)):
+        perf.setdefault("t1", {})["cache"] = draw(st.sampled_from([{"max_entries": 8, "max_bytes": 100000}, {"max_entries": 1}, {"max_bytes": 200},
+                                                                   {"max_entries": 0, "max_bytes": 0}, {"max_entries": 2, "max_bytes": 1}]))
+    if force_parallel or draw(st.sampled_from([True, False, False, False])):
+        perf["parallel"] = draw(st.sampled_from([{"enabled": True, "t1": True, "max_workers": 2}, {"enabled": True, "t1": True, "max_workers": 4},
+                                                 {"enabled": True, "t1": True, "max_workers": 2}, {"enabled": True, "t1": True, "max_workers": 1},
+                                                 {"enabled": True, "t1": False, "max_workers": 4}, {"enabled": False, "t1": True, "max_workers": 4}]))
+    if not perf:
+        return None
+    perf["enabled"] = draw(st.sampled_from([True, True, False]))
+    return perf
+
+
+def _perf_legal(perf):
+    """True when the perf subtree would pass the repo's validator unchanged in meaning (caps/dedupe >= 1)."""
+    t1 = perf.get("t1") or {}
+    vals = list((t1.get("caps") or {}).values()) + ([t1["dedupe_window"]] if "dedupe_window" in t1 else [])
+    return all(int(v) >= 1 for v in vals)
+
+
+@st.composite
+def slice_caps(draw):
+    if not draw(st.sampled_from([True, False, False])):
+        return None
+    sc = {}
+    if draw(st.booleans()):
+        sc["t1_iters"] = draw(st.sampled_from([0, 1, 2, 50, None]))
+    if draw(st.booleans()):
+        sc["t1_pops"] = draw(st.sampled_from([0, 1, 2, 4, 10000, None]))
+    if draw(st.sampled_from([True, False, False])):
+        sc.update(SLICE_EXTRA)  # what the orchestrator's _derive_budgets hands over besides the T1 keys
+    return sc
+
+
+@st.composite
+def cases(draw, for_seq=False, multi=False):
+    """multi=True: >= 2 active graphs, every graph non-empty and carrying the planted keyword, the text contains it."""
+    many = draw(st.integers(0, 11)) == 5
+    if many:
+        ng = draw(st.integers(11, 13))
+        gids = draw(st.lists(st.sampled_from(MANY_GIDS), min_size=ng, max_size=ng, unique=True))
+        graphs = {gid: draw(graph_specs2(max_nodes=3, max_edges=3, min_nodes=1 if multi else 0)) for gid in gids}
+    else:
+        ng = draw(st.integers(2 if multi else 1, 4))
+        gids = draw(st.lists(st.sampled_from(GIDS), min_size=ng, max_size=ng, unique=True))
+        graphs = {gid: draw(graph_specs2(min_nodes=1 if multi else 0)) for gid in gids}
+    # graphs present in the store but NOT active (must be ignored), store insertion order != active order
+    inactive = []
+    if not many and draw(st.sampled_from([True, False, False])):
+        inactive = draw(st.lists(st.sampled_from([g for g in GIDS + ["zz"] if g not in gids]), min_size=1, max_size=2, unique=True))
+        for g in inactive:
+            graphs[g] = draw(graph_specs2(max_nodes=4, max_edges=5))
+    store_order = list(draw(st.permutations(gids + inactive))) if draw(st.booleans()) else gids + inactive
+    # one keyword planted in several graphs (label or tag, any case): several graphs are seeded by the same text
+    plant = None
+    if multi or draw(st.integers(0, 2)) != 1:
+        plant = draw(st.sampled_from(["kiwi", "fig", "green apple", "Äpfel", "nut"]))
+        for gid in gids + inactive:
+            ns = graphs[gid]["nodes"]
+            if ns and (multi or draw(st.integers(0, 2)) != 1):
+                srcs = {e["src"] for e in graphs[gid]["edges"]}
+                with_out = [k for k, x in enumerate(ns) if x["id"] in srcs]
+                n = ns[draw(st.sampled_from(with_out)) if (with_out and draw(st.integers(0, 3))) else draw(st.integers(0, len(ns) - 1))]
+                form = draw(st.sampled_from([plant, plant.upper(), plant.capitalize()]))
+                if n.get("tags") is not None and draw(st.sampled_from([False, False, True])):
+                    n["tags"] = list(n["tags"]) + [form]
+                else:
+                    n["label"] = form
+    text = draw(texts2(graphs))
+    if plant is not None and (multi or draw(st.integers(0, 3)) != 1):
+        text = (text + draw(st.sampled_from([" ", "\n", ","])) + draw(st.sampled_from([plant, plant.lower(), plant.upper()]))).strip(" ")
     motif_radius = None
     if draw(st.sampled_from([True, False, False])):
         spec, motif_radius = draw(motif_graph())
@@ -124,15 +373,20 @@ def cases(draw):
     use_validated = draw(st.sampled_from([False] * 5 + [True]))
     if use_validated:
         t1 = None
-        over = {"t1": {"cache": {"enabled": False, "max_entries": 8, "ttl_s": 60}}}
+        num = lambda v: draw(st.sampled_from([v, v, str(v)]))  # noqa: E731  numbers as strings pass the validator
+        over = {"t1": {"cache": {"enabled": draw(st.sampled_from([False, False, True])), "max_entries": 8, "ttl_s": 60}}}
         if draw(st.booleans()):
-            over["t1"]["radius_cap"] = draw(st.sampled_from([0, 1, 2, 4]))
+            over["t1"]["radius_cap"] = num(draw(st.sampled_from([0, 1, 2, 4])))
         if draw(st.booleans()):
-            over["t1"]["queue_budget"] = draw(st.sampled_from([1, 2, 3, 10000]))
+            over["t1"]["queue_budget"] = num(draw(st.sampled_from([1, 2, 3, 10000])))
         if draw(st.booleans()):
-            over["t1"]["iter_cap"] = draw(st.sampled_from([1, 2, 50]))
+            over["t1"]["iter_cap"] = num(draw(st.sampled_from([1, 2, 50])))
         if draw(st.booleans()):
-            over["t1"]["node_budget"] = draw(st.sampled_from([0.5, 1.0, 1.5, 3.0]))
+            over["t1"]["node_budget"] = num(draw(st.sampled_from([0.5, 1.0, 1.5, 3.0])))
+        if draw(st.sampled_from([True, False, False])):
+            over["t1"]["decay"] = draw(st.sampled_from([{"mode": "attn_quad", "alpha": "0.5"}, {"mode": "exp_floor", "rate": 0.9}, {}]))
+        if draw(st.sampled_from([True, False, False])):
+            over["t1"]["edge_type_mult"] = draw(st.sampled_from([{"supports": "0.5"}, {}, {"associates": 1, "weird": 2.0}]))
     else:
         t1 = draw(t1_cfgs())
         over = None
@@ -145,56 +399,73 @@ def cases(draw):
                 t1.pop("iter_cap", None)
                 t1.pop("iter_cap_layers", None)
             t1["decay"] = draw(st.sampled_from([{"mode": "exp_floor", "rate": 0.9, "floor": 0.05}, {"mode": "attn_quad", "alpha": 0.1}]))
-    slice_caps = None
-    if draw(st.sampled_from([True, False, False])):
-        slice_caps = {}
-        if draw(st.booleans()):
-            slice_caps["t1_iters"] = draw(st.sampled_from([0, 1, 2, 50]))
-        if draw(st.booleans()):
-            slice_caps["t1_pops"] = draw(st.sampled_from([0, 1, 2, 4, 10000]))
-    perf = None
-    if draw(st.sampled_from([True, False, False, False])):
-        perf = {"enabled": draw(st.sampled_from([True, True, False])),
-                "t1": {"caps": {"frontier": draw(st.sampled_from([0, 1, 2, 100])), "visited": draw(st.sampled_from([0, 1, 2, 100]))},
-                       "dedupe_window": draw(st.sampled_from([0, 1, 4]))},
-                "metrics": {"report_memory": draw(st.booleans())}}
-    return {"graphs": graphs, "order": gids, "text": text, "t1": t1, "validated": over, "slice": slice_caps, "perf": perf}
+    sc = draw(slice_caps())
+    perf = draw(perf_cfgs(force_parallel=many and draw(st.booleans())))
+    shape = {"cfg": draw(st.sampled_from(["attr", "attr", "config"])), "state": draw(st.sampled_from(["dict", "dict", "dict", "view"])),
+             "slice_attr": draw(st.booleans()), "edges_via": draw(st.sampled_from(["upsert", "upsert", "deltas", "deltas_each"])),
+             "perf_validated": draw(st.booleans()), "ctx": draw(st.sampled_from(["ns", "turnctx", "ns"])),
+             "clock_callable": draw(st.integers(0, 3)) == 1}
+    return {"graphs": graphs, "order": gids, "text": text, "t1": t1, "validated": over, "slice": sc, "perf": perf,
+            "store_order": store_order, "shape": shape}
 
 
 # ---------------------------------------------------------------- running the real stage
 
+def _plain(x):
+    if isinstance(x, dict):
+        return {k: _plain(v) for k, v in x.items()}
+    if isinstance(x, list):
+        return [_plain(v) for v in x]
+    return x
+
+
+def _shape(case):
+    return case.get("shape") or {}
+
+
 def _cfg_of(case):
+    """(cfg object handed to the stage, plain dict of the t1 section the reference reads)."""
+    shape = _shape(case)
+    perf = copy.deepcopy(case["perf"]) if case.get("perf") is not None else None
     if case["validated"] is not None:
-        cfg = world.validated_cfg(case["validated"])
-        if case["perf"] is not None:
-            cfg["perf"] = world.to_attr(world.deep_merge(dict(cfg.get("perf") or {}), case["perf"]))
-        return cfg
-    base = {"t1": copy.deepcopy(case["t1"])}
-    if case["perf"] is not None:
-        base["perf"] = copy.deepcopy(case["perf"])
-    return world.to_attr(base)
+        over = copy.deepcopy(case["validated"])
+        if perf is not None and shape.get("perf_validated") and _perf_legal(perf):
+            over["perf"] = perf  # the validator normalises it (queue_cap -> caps.frontier)
+            perf = None
+        cfg = world.validated_cfg(over)
+        if perf is not None:
+            cfg["perf"] = world.to_attr(world.deep_merge(dict(cfg.get("perf") or {}), perf))
+    else:
+        base = {"t1": copy.deepcopy(case["t1"])}
+        if perf is not None:
+            base["perf"] = perf
+        cfg = world.to_attr(base)
+    t1cfg = _plain(dict(cfg["t1"]))
+    if shape.get("cfg") == "config":
+        # object-shaped configuration: the engine's own Config dataclass holding plain dicts
+        from clematis.engine.types import Config
+
+        obj = Config()
+        obj.t1 = _plain(dict(cfg["t1"]))
+        if cfg.get("perf") is not None:
+            obj.perf = _plain(dict(cfg["perf"]))
+        cfg = obj
+    return cfg, t1cfg
 
 
-def run_t1(case, gids=None):
-    from clematis.engine.stages.t1 import t1_propagate
-
-    world.reset_engine_globals()
-    cfg = _cfg_of(case)
-    gids = list(case["order"] if gids is None else gids)
-    store = world.build_store({g: case["graphs"][g] for g in case["order"]})
-    ctx = SimpleNamespace(cfg=cfg, config=cfg, agent_id="A", turn_id=1)
-    if case["slice"] is not None:
-        ctx.slice_budgets = dict(case["slice"])
-    state = {"store": store, "active_graphs": gids}
-    before = world.store_digest(store)
-    cfg_before = copy.deepcopy(dict(cfg))
-    res = t1_propagate(ctx, state, case["text"])
-    after = world.store_digest(store)
-    return res, before, after, (cfg_before == dict(cfg)), ctx, state
+def _cfg_snapshot(cfg):
+    if isinstance(cfg, dict):
+        return copy.deepcopy(dict(cfg))
+    return copy.deepcopy({"t1": cfg.t1, "perf": getattr(cfg, "perf", None)})
 
 
-def perf_caps_active(case):
-    p = case["perf"]
+def perf_view(cfg):
+    p = cfg.get("perf") if isinstance(cfg, dict) else getattr(cfg, "perf", None)
+    return _plain(dict(p)) if p else {}
+
+
+def perf_caps_active(cfg):
+    p = perf_view(cfg)
     if not p or not p.get("enabled"):
         return False
     t1 = p.get("t1") or {}
@@ -202,9 +473,109 @@ def perf_caps_active(case):
     return bool(caps.get("frontier") or caps.get("visited") or t1.get("dedupe_window"))
 
 
+def parallel_on(cfg):
+    pp = (perf_view(cfg).get("parallel") or {})
+    return bool(pp.get("enabled") and pp.get("t1") and int(pp.get("max_workers") or 0) > 1)
+
+
+class StateView:
+    """A state that is not a dict (read-only mapping view): the stage cache then lives in the process-level slot."""
+
+    def __init__(self, d):
+        self._d = d
+
+    def get(self, k, default=None):
+        return self._d.get(k, default)
+
+    def __getitem__(self, k):
+        return self._d[k]
+
+    def __contains__(self, k):
+        return k in self._d
+
+
+def build_store(case, graphs=None):
+    """Store holding case['store_order'] graphs; edges through upsert_edges or the Apply stage's apply_deltas."""
+    from clematis.graph.store import InMemoryGraphStore
+    from clematis.engine.types import Node, Edge
+
+    graphs = case["graphs"] if graphs is None else graphs
+    via = _shape(case).get("edges_via", "upsert")
+    store = InMemoryGraphStore()
+    for gid in case.get("store_order") or case["order"]:
+        spec = graphs[gid]
+        store.ensure(gid)
+        if spec["nodes"]:
+            store.upsert_nodes(gid, [Node(id=n["id"], label=n["label"], attrs=({"tags": list(n["tags"])} if n.get("tags") is not None else {}))
+                                     for n in spec["nodes"]])
+        if spec["edges"]:
+            if via == "upsert":
+                store.upsert_edges(gid, [Edge(id=e["id"], src=e["src"], dst=e["dst"], weight=e["w"], rel=e["rel"]) for e in spec["edges"]])
+            else:
+                ds = [{"op": "upsert_edge", "id": e["id"], "src": e["src"], "dst": e["dst"], "weight": e["w"], "rel": e["rel"]} for e in spec["edges"]]
+                if via == "deltas":
+                    store.apply_deltas(gid, ds)
+                else:
+                    for d in ds:
+                        store.apply_deltas(gid, [d])
+    return store
+
+
+def make_ctx(case, cfg, slice_, turn_id=1, agent="A", now_ms=None):
+    if _shape(case).get("ctx") == "turnctx":
+        from clematis.engine.types import TurnCtx  # the engine's own context dataclass (no .config, no clock)
+
+        ctx = TurnCtx(turn_id=str(turn_id), agent_id=agent, scene_tags=[], now=world.NOW_ISO, cfg=cfg)
+    else:
+        ctx = SimpleNamespace(cfg=cfg, config=cfg, agent_id=agent, turn_id=turn_id)
+    if slice_ is not None:
+        ctx.slice_budgets = dict(slice_)
+    elif _shape(case).get("slice_attr"):
+        ctx.slice_budgets = None  # what the orchestrator leaves behind when delattr fails
+    if now_ms is not None:
+        ctx.now_ms = (lambda _v=now_ms: _v) if _shape(case).get("clock_callable") else now_ms
+    return ctx
+
+
+def make_state(case, store, gids):
+    d = {"store": store, "active_graphs": list(gids)}
+    return StateView(d) if _shape(case).get("state") == "view" else d
+
+
+def run_t1(case, gids=None):
+    from clematis.engine.stages.t1 import t1_propagate
+
+    world.reset_engine_globals()
+    cfg, _ = _cfg_of(case)
+    gids = list(case["order"] if gids is None else gids)
+    store = build_store(case)
+    ctx = make_ctx(case, cfg, case["slice"])
+    state = make_state(case, store, gids)
+    before = world.store_digest(store)
+    cfg_before = _cfg_snapshot(cfg)
+    res = t1_propagate(ctx, state, case["text"])
+    after = world.store_digest(store)
+    return res, before, after, (cfg_before == _cfg_snapshot(cfg)), ctx, state
+
+
+def _need_counters(res, case, where=""):
+    """The result must carry the documented counters as integers (a missing one is a property failure, not a harness error)."""
+    m = getattr(res, "metrics", None)
+    bad = [k for k in COUNTERS if not isinstance(m, dict) or isinstance(m.get(k), bool) or not isinstance(m.get(k), int)]
+    if bad:
+        raise Violation(f"{where}T1 metrics lack integer counters {bad}: {m!r}"[:600], case, "counter-missing")
+    if not isinstance(getattr(res, "graph_deltas", None), list):
+        raise Violation(f"{where}graph_deltas is {type(getattr(res, 'graph_deltas', None)).__name__}, not a list", case, "delta-shape")
+
+
+def _check_shape(deltas, case, where=""):
+    for d in deltas:
+        if not isinstance(d, dict) or set(d) != {"op", "id"} or d["op"] != "upsert_node":
+            raise Violation(f"{where}unexpected delta shape {d!r}", case, "delta-shape")
+
+
 def check_case(case, rec=None):
-    cfg = _cfg_of(case)
-    t1cfg = dict(cfg["t1"])
+    cfg, t1cfg = _cfg_of(case)
     try:
         res, before, after, cfg_same, ctx, state = run_t1(case)
     except Exception as e:
@@ -213,23 +584,30 @@ def check_case(case, rec=None):
         raise Violation("t1_propagate modified the graph store", case, "store-modified")
     if not cfg_same:
         raise Violation("t1_propagate modified the configuration", case, "cfg-modified")
+    _need_counters(res, case)
     m = res.metrics
     deltas = res.graph_deltas
-    for d in deltas:
-        if set(d) != {"op", "id"} or d["op"] != "upsert_node":
-            raise Violation(f"unexpected delta shape {d}", case, "delta-shape")
+    _check_shape(deltas, case)
 
     # second call: pure
-    res2 = run_t1(case)[0]
+    try:
+        res2 = run_t1(case)[0]
+    except Exception as e:
+        raise Violation(f"second identical call: t1_propagate raised {type(e).__name__}: {e}", case, "raises")
+    _need_counters(res2, case, "second call: ")
     if res2.graph_deltas != deltas or {k: res2.metrics[k] for k in COUNTERS} != {k: m[k] for k in COUNTERS}:
         raise Violation("two identical calls differ", case, "nondeterministic")
 
     # (4) decomposition: per-graph runs (also yields per-graph figures for the budget predicates)
     per = []
     for gid in case["order"]:
-        r, b, a, _, _, _ = run_t1(case, gids=[gid])
+        try:
+            r, b, a, _, _, _ = run_t1(case, gids=[gid])
+        except Exception as e:
+            raise Violation(f"graph {gid} alone: t1_propagate raised {type(e).__name__}: {e}", case, "raises")
         if b != a:
             raise Violation("t1_propagate modified the graph store", case, "store-modified")
+        _need_counters(r, case, f"graph {gid} alone: ")
         per.append((gid, r))
     cat = [d for _, r in per for d in r.graph_deltas]
     if cat != deltas:
@@ -245,9 +623,12 @@ def check_case(case, rec=None):
     qb, layers = ref.effective_caps(t1cfg, case["slice"])
     rc = int(t1cfg.get("radius_cap", 4))
     relax = t1cfg.get("relax_cap")
-    caps_on = perf_caps_active(case)
+    caps_on = perf_caps_active(cfg)
     any_seed_out = False
     binding = False
+    seeded_graphs = 0
+    multi_kw = False
+    slack_frontier = False
     for gid, r in per:
         spec = case["graphs"][gid]
         ids = [d["id"] for d in r.graph_deltas]
@@ -258,6 +639,10 @@ def check_case(case, rec=None):
             if ids or any(mm[k] for k in COUNTERS):
                 raise Violation(f"graph {gid}: no label/tag occurs in the text but T1 reported {ids} / {mm}", case, "seedless-work")
             continue
+        seeded_graphs += 1
+        tl = case["text"].lower()
+        if any(sum(1 for kw in _kws(n) if kw.lower() in tl) > 1 for n in spec["nodes"]):
+            multi_kw = True
         # every seed is reported unless a negative contribution cancelled it; a reported node with no path is wrong
         # (2) once, ascending, reachable
         if len(set(ids)) != len(ids):
@@ -282,9 +667,25 @@ def check_case(case, rec=None):
         if mm["radius_cap_hits"] or mm["layer_cap_hits"] or mm["node_budget_hits"] or mm["pops"] == qb or \
                 (relax is not None and mm["propagations"] >= int(relax)):
             binding = True
-        # (5) exact differential
-        if not caps_on:
-            want_ids, want_m = ref.ref_one_graph(spec, case["text"], t1cfg, case["slice"])
+        # (5) exact differential — also when the only perf cap is a frontier cap the frontier never outgrows
+        info = {}
+        want_ids, want_m = ref_one_graph(spec, case["text"], t1cfg, case["slice"], info)
+        exact = not caps_on
+        if caps_on:
+            pt1 = perf_view(cfg).get("t1") or {}
+            fcap = int((pt1.get("caps") or {}).get("frontier") or 0)
+            if not int((pt1.get("caps") or {}).get("visited") or 0) and not int(pt1.get("dedupe_window") or 0) and \
+                    info["peak"] <= min(fcap, qb):
+                exact = True
+                slack_frontier = True
+            # seeds keep their unit activation whatever is pruned: without negative contributions each one is reported
+            mult = t1cfg.get("edge_type_mult", ref.DEFAULT_MULT)
+            if all(float(e["w"]) * float(mult.get(e["rel"], 0.6)) >= 0 for e in spec["edges"]):
+                lost = [x for x in seeds if x not in ids]
+                if lost:
+                    raise Violation(f"graph {gid}: seeds {lost} (label/tag occurs in the text, no negative edge) are not reported: {ids}",
+                                    case, "seed-not-reported")
+        if exact:
             if want_ids != ids:
                 raise Violation(f"graph {gid}: touched {ids}, documented rule gives {want_ids} (seeds {seeds})", case, "ref-ids")
             got_m = {k: mm[k] for k in COUNTERS}
@@ -294,10 +695,20 @@ def check_case(case, rec=None):
 
     if rec is not None:
         nt = any_seed_out and binding
-        labels = [f"graphs={len(case['order'])}"] + (["seed_out"] if any_seed_out else []) + (["binding"] if binding else []) + \
-                 (["perf_caps"] if caps_on else []) + (["slice"] if case["slice"] else []) + \
+        shape = _shape(case)
+        n_active = len(case["order"])
+        labels = [f"graphs={n_active if n_active <= 4 else '>10'}"] + (["seed_out"] if any_seed_out else []) + (["binding"] if binding else []) + \
+                 (["perf_caps"] if caps_on else []) + (["perf_frontier_cap_slack_exact"] if slack_frontier else []) + \
+                 (["slice"] if case["slice"] else []) + \
                  (["validated"] if case["validated"] is not None else []) + (["deltas>0"] if deltas else []) + \
-                 (["motif"] if any(n["id"] == "j" for g in case["graphs"].values() for n in g["nodes"]) else [])
+                 (["motif"] if any(n["id"] == "j" for g in case["graphs"].values() for n in g["nodes"]) else []) + \
+                 (["seeded_graphs>=2"] if seeded_graphs >= 2 else []) + (["seed_by_2_keywords"] if multi_kw else []) + \
+                 (["parallel"] if parallel_on(cfg) else []) + (["cfg_object"] if shape.get("cfg") == "config" else []) + \
+                 (["state_view"] if shape.get("state") == "view" else []) + (["ctx_TurnCtx"] if shape.get("ctx") == "turnctx" else []) + \
+                 (["inactive_graphs"] if len(case.get("store_order") or case["order"]) > n_active else []) + \
+                 (["bytes_cache"] if ((perf_view(cfg).get("t1") or {}).get("cache") and perf_view(cfg).get("enabled")) else []) + \
+                 ([f"edges_via={shape.get('edges_via', 'upsert')}"]) + \
+                 (["slice_none_value"] if case["slice"] and any(case["slice"].get(k, 0) is None for k in ("t1_pops", "t1_iters")) else [])
         rec.case(nontrivial=nt, dig=digest(case) if nt else None, labels=labels,
                  sample={"text": case["text"], "graphs": {g: {"nodes": [(n["id"], n["label"]) for n in s["nodes"]],
                                                               "edges": [(e["src"], e["dst"], e["w"], e["rel"]) for e in s["edges"]][:8]}
@@ -308,64 +719,270 @@ def check_case(case, rec=None):
 
 # ---------------------------------------------------------------- sequences on one engine state (stage cache ON)
 
+CAPS_POOL = [None, {}, {"t1_pops": 1}, {"t1_pops": 2, "t1_iters": 1}, {"t1_iters": 0}, {"t1_iters": 2}, {"t1_pops": 10000, "t1_iters": 50},
+             {"t1_pops": 0}, {"t1_pops": None, "t1_iters": 50, **SLICE_EXTRA}]
+
+
 @st.composite
 def seq_cases(draw):
-    """2-4 calls on ONE state with the T1 result cache enabled: same graphs, texts from a small pool, slice caps that
-    change from call to call.  Whatever the stage keeps between calls, every single call must still obey the rule."""
-    base = draw(cases())
+    """2-5 calls on ONE state with the T1 result cache enabled.  A case-level mode decides which families of change
+    happen between the calls: `repeat` = identical calls over >= 2 graphs seeded by the same text (served from the cache;
+    only the active-graph order, the clock and the agent may move), `caps` = slice caps change, `edits` = the store is
+    edited through every writer it has (and reverted), `cfg` = one config leaf differs per call, `all` = everything.
+    Whatever the stage keeps between calls, every single call must still obey the rule."""
+    mode = draw(st.sampled_from(["repeat", "caps", "edits", "edits", "cfg", "cfg", "cfg", "all", "all", "repeat"]))
+    base = draw(cases(for_seq=True, multi=(mode in ("repeat", "cfg"))))
+    base["mode"] = mode
+    roomy = mode in ("repeat", "cfg") and draw(st.integers(0, 4)) != 2  # room and time for every graph's entry to survive
     if base["validated"] is not None:
-        base["validated"]["t1"]["cache"] = {"enabled": True, "max_entries": draw(st.sampled_from([1, 2, 8])), "ttl_s": 300}
+        base["validated"]["t1"]["cache"] = {"enabled": True, "max_entries": 64 if roomy else draw(st.sampled_from([1, 2, 8])),
+                                            "ttl_s": 300 if roomy else draw(st.sampled_from([300, 300, 1, 0]))}
+    elif roomy:
+        base["t1"]["cache"] = draw(st.sampled_from([{"enabled": True}, {}, {"enabled": True, "max_entries": 64, "ttl_s": 300}]))
     else:
-        base["t1"]["cache"] = draw(st.sampled_from([{"enabled": True}, {"enabled": True, "max_entries": 2}]))
-    caps_pool = [None, {}, {"t1_pops": 1}, {"t1_pops": 2, "t1_iters": 1}, {"t1_iters": 0}, {"t1_iters": 2}, {"t1_pops": 10000, "t1_iters": 50},
-                 {"t1_pops": 0}]
-    texts = [base["text"], base["text"], draw(world.texts_for(base["graphs"]))]
-    calls = [{"text": draw(st.sampled_from(texts)), "slice": draw(st.sampled_from(caps_pool))} for _ in range(draw(st.integers(2, 4)))]
-    # graph edits between calls (the Apply stage's store.apply_deltas path, or upsert_edges): a weight / relation refresh
-    # of an EXISTING edge, or a new edge; the next propagation must follow the edited graph
-    editable = [(g, j) for g in base["order"] for j in range(len(base["graphs"][g]["edges"]))]
-    for c in calls[1:]:
-        if editable and draw(st.sampled_from([True, False])):
-            g, j = draw(st.sampled_from(editable))
-            c["edit"] = {"gid": g, "edge": j, "via": draw(st.sampled_from(["apply_deltas", "apply_deltas", "upsert_edges"])),
-                         "w": draw(st.sampled_from([0.0, 0.9, -0.9, 0.5, 1.0, 0.25])),
-                         "rel": draw(st.sampled_from([None, None, "supports", "associates", "contradicts"]))}
+        base["t1"]["cache"] = draw(st.sampled_from([{"enabled": True}, {"enabled": True, "max_entries": 2}, {"enabled": True}, {},
+                                                    {"enabled": True, "max_entries": 64, "ttl_s": 1}, {"max_entries": 1, "ttl_s": 300}]))
+    if mode == "cfg" and draw(st.integers(0, 3)) != 1:
+        # the other caps stay at their loose defaults, so the leaf that moves decides what is touched
+        tgt = base["validated"]["t1"] if base["validated"] is not None else base["t1"]
+        for k in ("queue_budget", "iter_cap", "iter_cap_layers", "relax_cap", "radius_cap", "node_budget"):
+            tgt.pop(k, None)
+    texts = [base["text"], base["text"], draw(texts2(base["graphs"]))]
+    all_gids = list(base.get("store_order") or base["order"])
+    vary_caps = mode in ("caps", "all")
+    vary_cfg = mode in ("cfg", "all")
+    vary_graph = mode in ("edits", "all")
+    calls = []
+    text, sl = base["text"], draw(st.sampled_from(CAPS_POOL))
+    # mode cfg: ONE leaf of the T1 config moves between otherwise identical calls
+    leaf_pools = {"radius_cap": [{"radius_cap": v} for v in (0, 0, 1, 2, 4)], "node_budget": [{"node_budget": v} for v in (0.5, 0.5, 1.0, 3.0)],
+                  "queue_budget": [{"queue_budget": v} for v in (1, 1, 2, 10000)], "iter_cap": [{"iter_cap": v} for v in (0, 0, 1, 50)],
+                  # incl. settings that stop all spreading (decay 0 beyond the seed / every multiplier 0): a result kept
+                  # from the other setting is then visibly wrong whatever the graph
+                  "decay": [{"decay": {"mode": "attn_quad", "alpha": 0.1}}, {"decay": {"mode": "exp_floor", "rate": 0.9, "floor": 0.0}},
+                            {"decay": {"mode": "exp_floor", "rate": 0.0, "floor": 0.0}}, {"decay": {"mode": "exp_floor", "rate": 0.0, "floor": 0.0}},
+                            {"decay": {"mode": "attn_quad", "alpha": 1e9}}],
+                  "edge_type_mult": [{"edge_type_mult": {"supports": 0.5, "associates": 1.0}}, {"edge_type_mult": {}},
+                                     {"edge_type_mult": {"supports": 0, "associates": 0, "contradicts": 0, "weird": 0}},
+                                     {"edge_type_mult": {"supports": 0, "associates": 0, "contradicts": 0, "weird": 0}},
+                                     {"edge_type_mult": {"supports": 1.0, "associates": -1.0, "weird": 1.0}}]}
+    if base["validated"] is None:
+        leaf_pools["iter_cap_layers"] = [{"iter_cap_layers": v} for v in (0, 0, 1, 2)]
+        leaf_pools["relax_cap"] = [{"relax_cap": v} for v in (0, 0, 1, 2, None)]
+    leaf = draw(st.sampled_from(sorted(leaf_pools))) if mode == "cfg" else None
+    for i in range(draw(st.integers(3 if mode == "cfg" else 2, 5))):
+        if i and mode not in ("repeat", "cfg") and draw(st.integers(0, 2)) == 1:
+            text = draw(st.sampled_from(texts))
+        if i and vary_caps and draw(st.booleans()):
+            sl = draw(st.sampled_from(CAPS_POOL))
+        c = {"text": text, "slice": copy.deepcopy(sl)}
+        if draw(st.integers(0, 3)) == 1:
+            perm = list(draw(st.permutations(all_gids)))
+            c["active"] = perm if mode in ("repeat", "cfg") else perm[:draw(st.integers(1, len(all_gids)))]
+        if draw(st.integers(0, 2)) == 1:
+            c["dt_ms"] = draw(st.sampled_from([1, 1000, 299000, 301000, 10 ** 7]))
+        if draw(st.integers(0, 3)) == 1:
+            c["agent"] = draw(st.sampled_from(["B", "world"]))
+        if draw(st.integers(0, 3)) == 1:
+            c["extend_result"] = True
+        # mode cfg: patched and unpatched calls mostly alternate (each one may be answered from what the other left behind)
+        if (((i % 2 == 1) != (draw(st.integers(0, 7)) == 3)) if leaf else (i and vary_cfg and draw(st.booleans()))):
+            # the configuration handed to THIS call differs in one leaf (a result kept from another call must not leak)
+            pool = [{"radius_cap": 1}, {"radius_cap": 4}, {"node_budget": 0.5}, {"node_budget": 3.0}, {"queue_budget": 2}, {"iter_cap": 1},
+                    {"decay": {"mode": "attn_quad", "alpha": 0.1}}, {"decay": {"mode": "exp_floor", "rate": 0.0, "floor": 0.0}},
+                    {"edge_type_mult": {"supports": 0, "associates": 0, "contradicts": 0, "weird": 0}},
+                    {"edge_type_mult": {"supports": 0.5, "associates": 1.0}}, {"edge_type_mult": {"supports": 1.0, "associates": -1.0, "weird": 1.0}}]
+            if base["validated"] is None:
+                pool += [{"iter_cap_layers": 1}, {"relax_cap": 2}, {"iter_cap_layers": 2}]
+            c["t1_patch"] = draw(st.sampled_from(leaf_pools[leaf] if leaf else pool))
+        if i and vary_cfg and base.get("perf") and draw(st.integers(0, 3)) == 1:
+            c["perf_toggle"] = True
+        calls.append(c)
+    # graph edits between calls through the store's writers; the next propagation must follow the edited graph.
+    # mode edits: ONE family of edit per case (so that each family meets otherwise quiet sequences), mode all: mixed
+    families = ["edge", "rewire", "revert", "new_edge", "node", "new_node"]
+    family = draw(st.sampled_from(families)) if mode == "edits" else None
+    words = [w for w in text.replace("\n", " ").replace("\t", " ").replace(",", " ").split(" ") if w]
+    for c in (calls[1:] if vary_graph else []):
+        if not draw(st.integers(0, 2)):
+            continue
+        seeded_gids = [x for x in base["order"] if ref.ref_seeds(base["graphs"][x], text)]
+        g = draw(st.sampled_from(seeded_gids if (seeded_gids and draw(st.integers(0, 3))) else all_gids))
+        spec = base["graphs"][g]
+        hot = set(ref.reachable_within(spec, ref.ref_seeds(spec, text), 2))  # edits near a seed change what is touched
+        hot_edges = [k for k, e in enumerate(spec["edges"]) if e["src"] in hot]
+        kind = family or draw(st.sampled_from(["edge", "edge", "rewire", "revert", "new_edge", "new_edge", "node", "new_node"]))
+        nids = [n["id"] for n in spec["nodes"]]
+        if kind in ("edge", "revert", "rewire") and spec["edges"]:
+            ed = {"kind": "edge" if kind == "rewire" else kind, "gid": g, "edge": (draw(st.sampled_from(hot_edges)) if (hot_edges and draw(st.integers(0, 3))) else draw(st.integers(0, len(spec["edges"]) - 1))),
+                  "via": draw(st.sampled_from(["apply_deltas", "apply_deltas", "upsert_edges", "rmw"]))}
+            if kind == "rewire":
+                # only an endpoint moves under the same edge id; weight and relation stay as they are
+                ed["keep_w"] = True
+                ed["dst" if draw(st.integers(0, 3)) else "src"] = draw(st.sampled_from((nids or ["ghost"]) * 3 + ["ghost"]))
+            else:
+                ed["w"] = draw(st.sampled_from([0.0, 0.9, -0.9, 0.5, 1.0, 0.25]))
+                ed["rel"] = draw(st.sampled_from([None, None, "supports", "associates", "contradicts"]))
+                if nids and draw(st.integers(0, 3)) == 1:
+                    ed["dst"] = draw(st.sampled_from(nids + ["ghost"]))  # re-wired endpoint under the same edge id
+            c["edit"] = ed
+        elif kind == "new_edge" and nids:
+            c["edit"] = {"kind": "new_edge", "gid": g, "src": draw(st.sampled_from(nids + ["ghost"])), "dst": draw(st.sampled_from(nids + ["ghost"])),
+                         "id": draw(st.sampled_from([None, "x1", "x2", "e0"])), "w": draw(st.sampled_from([0.9, 1.0, -0.9, 0.5, 0.0])),
+                         "rel": draw(st.sampled_from([None, "supports", "contradicts", "weird"])),
+                         "via": draw(st.sampled_from(["apply_deltas", "apply_deltas", "upsert_edges"]))}
+        elif kind == "node" and nids:
+            c["edit"] = {"kind": "node", "gid": g, "node": draw(st.integers(0, len(nids) - 1)), "label": draw(_LABELS2), "tags": draw(_TAGS2)}
+        elif kind == "new_node":
+            # ids that occur in the text: a node created by an id-only delta is labelled by its id (and so seeded)
+            c["edit"] = {"kind": "new_node", "gid": g, "id": draw(st.sampled_from(NODE_IDS2 + ["apple", "ghost"] + [w.lower() for w in words[:3]] * 3)),
+                         "label": draw(st.sampled_from([None, None, "kiwi", "apple", ""])),
+                         "via": draw(st.sampled_from(["apply_deltas", "apply_deltas", "upsert_nodes"]))}
     base["calls"] = calls
+    base["clock0"] = draw(st.sampled_from([None, 0, world.NOW_MS, world.NOW_MS]))
     return base
+
+
+def apply_edit(store, graphs, original, ed):
+    """Perform one store edit and mirror it in the reference's view `graphs` (spec dicts).  Returns True when done."""
+    from clematis.engine.types import Edge, Node
+
+    kind = ed.get("kind", "edge")
+    gid = ed["gid"]
+    spec = graphs[gid]
+    if kind in ("edge", "revert"):
+        if ed["edge"] >= len(spec["edges"]):
+            return False
+        e = spec["edges"][ed["edge"]]
+        if kind == "revert":
+            # back to the contents the graph started with (an earlier cache entry becomes valid again)
+            orig = next((o for o in original[gid]["edges"] if o["id"] == e["id"]), None)
+            if orig is None:
+                return False
+            e.update({"w": orig["w"], "rel": orig["rel"], "src": orig["src"], "dst": orig["dst"]})
+        else:
+            if not ed.get("keep_w"):
+                e["w"] = float(ed["w"])
+            if ed.get("rel") is not None:
+                e["rel"] = ed["rel"]
+            if ed.get("dst") is not None:
+                e["dst"] = ed["dst"]
+            if ed.get("src") is not None:
+                e["src"] = ed["src"]
+        via = ed.get("via", "apply_deltas")
+        if via == "apply_deltas":
+            store.apply_deltas(gid, [{"op": "upsert_edge", "id": e["id"], "src": e["src"], "dst": e["dst"], "weight": e["w"], "rel": e["rel"]}])
+        elif via == "rmw" and e["id"] in store.get_graph(gid).edges:
+            # read-modify-write of the stored object, handed back through the writer
+            obj = store.get_graph(gid).edges[e["id"]]
+            obj.weight, obj.rel, obj.src, obj.dst = e["w"], e["rel"], e["src"], e["dst"]
+            store.upsert_edges(gid, [obj])
+        else:
+            store.upsert_edges(gid, [Edge(id=e["id"], src=e["src"], dst=e["dst"], weight=e["w"], rel=e["rel"])])
+        return True
+    if kind == "new_edge":
+        rel = ed.get("rel")
+        if ed.get("via") == "upsert_edges":
+            eid = ed.get("id") or "x0"
+            rel = rel or "associates"
+            store.upsert_edges(gid, [Edge(id=eid, src=ed["src"], dst=ed["dst"], weight=ed["w"], rel=rel)])
+            w = ed["w"]
+        else:
+            d = {"op": "upsert_edge", "src": ed["src"], "dst": ed["dst"], "weight": ed["w"]}
+            if ed.get("id"):
+                d["id"] = ed["id"]
+            if rel is not None:
+                d["rel"] = rel
+            store.apply_deltas(gid, [d])
+            eid = ed.get("id") or f"e:{ed['src']}->{ed['dst']}"  # documented default id of an id-less edge delta
+            rel = rel or "associates"  # documented default relation
+            w = float(ed["w"])
+        new = {"id": eid, "src": ed["src"], "dst": ed["dst"], "w": w, "rel": rel}
+        for e in spec["edges"]:
+            if e["id"] == eid:
+                e.update(new)  # same id: replaced in place
+                break
+        else:
+            spec["edges"].append(new)
+        return True
+    if kind == "node":
+        if ed["node"] >= len(spec["nodes"]):
+            return False
+        n = spec["nodes"][ed["node"]]
+        n["label"], n["tags"] = ed["label"], (None if ed["tags"] is None else list(ed["tags"]))
+        store.upsert_nodes(gid, [Node(id=n["id"], label=n["label"], attrs=({"tags": list(n["tags"])} if n["tags"] is not None else {}))])
+        return True
+    if kind == "new_node":
+        nid = ed["id"]
+        exists = any(n["id"] == nid for n in spec["nodes"])
+        if ed.get("via") == "upsert_nodes":
+            label = ed.get("label") or ""
+            store.upsert_nodes(gid, [Node(id=nid, label=label)])
+            if exists:
+                next(n for n in spec["nodes"] if n["id"] == nid).update({"label": label, "tags": None})
+            else:
+                spec["nodes"].append({"id": nid, "label": label, "tags": None})
+        else:
+            d = {"op": "upsert_node", "id": nid}
+            if ed.get("label") is not None:
+                d["label"] = ed["label"]
+            store.apply_deltas(gid, [d])
+            if not exists:  # an existing node is kept as it is; a new one is labelled by the delta, else by its id
+                spec["nodes"].append({"id": nid, "label": ed["label"] if ed.get("label") is not None else nid, "tags": None})
+        return True
+    raise RuntimeError(f"harness: unknown edit kind {kind!r}")
 
 
 def check_seq(case, rec=None):
     from clematis.engine.stages.t1 import t1_propagate
 
     world.reset_engine_globals()
-    cfg = _cfg_of(case)
-    t1cfg = dict(cfg["t1"])
-    import copy as _copy
-    graphs = _copy.deepcopy(case["graphs"])  # the reference's view of the graph contents, edited in step with the store
+    cfgs = {}
+
+    def cfg_for(call):
+        """One configuration object per distinct (patch, toggle): unpatched calls share ONE object, as an engine would."""
+        key = json_key([call.get("t1_patch"), bool(call.get("perf_toggle"))])
+        if key not in cfgs:
+            c2 = case
+            if call.get("t1_patch") or call.get("perf_toggle"):
+                c2 = copy.deepcopy({k: v for k, v in case.items() if k not in ("graphs", "calls")})
+                if call.get("t1_patch"):
+                    tgt = c2["validated"]["t1"] if c2["validated"] is not None else c2["t1"]
+                    tgt.update(copy.deepcopy(call["t1_patch"]))
+                if call.get("perf_toggle") and c2.get("perf"):
+                    c2["perf"]["enabled"] = not c2["perf"].get("enabled")
+            cfgs[key] = _cfg_of(c2) + (key,)
+        return cfgs[key]
+
+    original = case["graphs"]
+    graphs = copy.deepcopy(case["graphs"])  # the reference's view of the graph contents, edited in step with the store
     case = dict(case, graphs=graphs)
-    store = world.build_store({g: graphs[g] for g in case["order"]})
-    state = {"store": store, "active_graphs": list(case["order"])}
-    caps_on = perf_caps_active(case)
-    hits = 0
-    edits = 0
+    store = build_store(case)
+    state = make_state(case, store, case["order"])
+    inner = state if isinstance(state, dict) else state._d
+    hits = edits = multi_hits = repeats = 0
+    any_caps_on = any_parallel = False
     differing_caps = len({json_key(c["slice"]) for c in case["calls"]}) > 1
+    now = case.get("clock0", world.NOW_MS)
+    memo = {}
+    ver = {g: 0 for g in graphs}
+    seen_calls = set()
+    kinds = set()
     for j, call in enumerate(case["calls"], 1):
-        ctx = SimpleNamespace(cfg=cfg, config=cfg, agent_id="A", turn_id=j, now_ms=world.NOW_MS)
-        if call["slice"] is not None:
-            ctx.slice_budgets = dict(call["slice"])
+        if now is not None:
+            now += int(call.get("dt_ms") or 0)
+        cfg, t1cfg, cfg_key = cfg_for(call)
+        caps_on = perf_caps_active(cfg)
+        any_caps_on = any_caps_on or caps_on
+        any_parallel = any_parallel or parallel_on(cfg)
+        ctx = make_ctx(case, cfg, call["slice"], turn_id=j, agent=call.get("agent", "A"), now_ms=now)
         ed = call.get("edit")
-        if ed is not None and ed["edge"] < len(graphs[ed["gid"]]["edges"]):
-            from clematis.engine.types import Edge
-            spec = graphs[ed["gid"]]["edges"][ed["edge"]]
-            spec["w"] = float(ed["w"])
-            if ed["rel"] is not None:
-                spec["rel"] = ed["rel"]
-            if ed["via"] == "apply_deltas":
-                store.apply_deltas(ed["gid"], [{"op": "upsert_edge", "id": spec["id"], "src": spec["src"], "dst": spec["dst"],
-                                                "weight": spec["w"], "rel": spec["rel"]}])
-            else:
-                store.upsert_edges(ed["gid"], [Edge(id=spec["id"], src=spec["src"], dst=spec["dst"], weight=spec["w"], rel=spec["rel"])])
+        if ed is not None and ed["gid"] in graphs and apply_edit(store, graphs, original, ed):
             edits += 1
+            ver[ed["gid"]] += 1
+            kinds.add(("rewire" if ed.get("keep_w") else ed.get("kind", "edge")) + ":" + str(ed.get("via", "")))
+        active = [g for g in (call.get("active") or case["order"]) if g in graphs]
+        inner["active_graphs"] = list(active)
         before = world.store_digest(store)
         try:
             res = t1_propagate(ctx, state, call["text"])
@@ -373,17 +990,34 @@ def check_seq(case, rec=None):
             raise Violation(f"call {j}: t1_propagate raised {type(e).__name__}: {e}", case, "raises")
         if world.store_digest(store) != before:
             raise Violation(f"call {j}: t1_propagate modified the graph store", case, "store-modified")
-        hits += int(res.metrics.get("cache_hits", 0) or 0)
+        _need_counters(res, case, f"call {j}: ")
+        mm = res.metrics
+        h = int(mm.get("cache_hits", 0) or 0)
+        hits += h
         qb, layers = ref.effective_caps(t1cfg, call["slice"])
         want_ids, want_m = [], dict(ref.ZERO)
-        n_graphs = len(case["order"])
-        for gid in case["order"]:
-            ids, m = ref.ref_one_graph(case["graphs"][gid], call["text"], t1cfg, call["slice"])
+        n_graphs = len(active)
+        seeded = 0
+        for gid in active:
+            key = (gid, ver[gid], call["text"], json_key(call["slice"]), cfg_key)
+            if key not in memo:
+                memo[key] = ref_one_graph(graphs[gid], call["text"], t1cfg, call["slice"])
+            ids, m = memo[key]
+            seeded += 1 if ids else 0
             want_ids += ids
             for k in want_m:
                 want_m[k] += m[k]
+        ck = (tuple(active), tuple(ver[g] for g in active), call["text"], json_key(call["slice"]), cfg_key)
+        if ck in seen_calls:
+            repeats += 1
+        if h >= 2:
+            multi_hits += 1  # >= 2 seeded graphs answered from what an earlier call left behind
+        seen_calls.add(ck)
+        _check_shape(res.graph_deltas, case, f"call {j}: ")
         got_ids = [d["id"] for d in res.graph_deltas]
-        mm = res.metrics
+        got_m = {k: mm[k] for k in COUNTERS}
+        if mm.get("graphs_touched") != n_graphs:
+            raise Violation(f"call {j}: graphs_touched={mm.get('graphs_touched')} for {n_graphs} active graphs", case, "graphs-touched")
         # budgets (aggregate over graphs) hold whatever was cached
         if mm["pops"] > qb * n_graphs:
             raise Violation(f"call {j} (slice {call['slice']}): pops={mm['pops']} exceeds {n_graphs} x budget {qb}", case, "seq-pops-budget")
@@ -391,21 +1025,182 @@ def check_seq(case, rec=None):
             raise Violation(f"call {j} (slice {call['slice']}): iters={mm['iters']} exceeds {n_graphs} x layer cap {layers}", case, "seq-iters-budget")
         if not caps_on:
             if got_ids != want_ids:
-                raise Violation(f"call {j} (text {call['text']!r}, slice {call['slice']}): touched {got_ids}, documented rule gives "
+                raise Violation(f"call {j} (text {call['text']!r}, slice {call['slice']}, active {active}): touched {got_ids}, documented rule gives "
                                 f"{want_ids}", case, "seq-ref-ids")
-            got_m = {k: mm[k] for k in COUNTERS}
             if got_m != want_m:
                 raise Violation(f"call {j} (slice {call['slice']}): counters {got_m}, documented rule gives {want_m}", case, "seq-ref-counters")
+        else:
+            # perf caps prune legitimately, but deterministically: the same call on a cold state (fresh store holding the
+            # edited contents, nothing cached) is the rule's answer for this call
+            cold_store = build_store(case, graphs)
+            try:
+                cold = t1_propagate(make_ctx(case, cfg, call["slice"], turn_id=j, agent=call.get("agent", "A"), now_ms=now),
+                                    {"store": cold_store, "active_graphs": list(active)}, call["text"])
+            except Exception as e:
+                raise Violation(f"call {j} on a cold state: t1_propagate raised {type(e).__name__}: {e}", case, "raises")
+            _need_counters(cold, case, f"call {j} (cold state): ")
+            if [d["id"] for d in cold.graph_deltas] != got_ids or {k: cold.metrics[k] for k in COUNTERS} != got_m:
+                raise Violation(f"call {j} (text {call['text']!r}, slice {call['slice']}, active {active}) under perf caps: touched {got_ids} / {got_m}; "
+                                f"the same call on a cold state gives {[d['id'] for d in cold.graph_deltas]} / "
+                                f"{ {k: cold.metrics[k] for k in COUNTERS} }", case, "seq-cold-differs")
+        if call.get("extend_result"):
+            # the caller owns the result object: it goes on and extends the list it was handed
+            res.graph_deltas.append({"op": "upsert_node", "id": "caller-added"})
     if rec is not None:
-        nt = hits > 0 and differing_caps
+        nt = hits > 0 and (differing_caps or edits > 0 or multi_hits > 0)
         rec.case(nontrivial=nt, dig=digest(case) if nt else None,
-                 labels=[f"calls={len(case['calls'])}"] + (["cache_hit"] if hits else []) + (["caps_differ"] if differing_caps else []) +
-                        (["graph_edited_between_calls"] if edits else []),
+                 labels=[f"calls={len(case['calls'])}", f"mode={case.get('mode', 'all')}"] + (["cache_hit"] if hits else []) + (["caps_differ"] if differing_caps else []) +
+                        (["graph_edited_between_calls"] if edits else []) + [f"edit={k}" for k in sorted(kinds)] +
+                        (["repeated_call"] if repeats else []) + (["call_with_2+_graphs_served_from_cache"] if multi_hits else []) +
+                        (["perf_caps"] if any_caps_on else []) + (["parallel"] if any_parallel else []) +
+                        (["cfg_changes_between_calls"] if len(cfgs) > 1 else []) +
+                        (["state_view"] if _shape(case).get("state") == "view" else []) +
+                        (["ctx_TurnCtx"] if _shape(case).get("ctx") == "turnctx" else []) +
+                        (["clock_callable"] if _shape(case).get("clock_callable") and now is not None else []) +
+                        (["cfg_object"] if _shape(case).get("cfg") == "config" else []) +
+                        (["active_changes"] if any(c.get("active") for c in case["calls"]) else []) +
+                        (["clock_jumps_ttl"] if any((c.get("dt_ms") or 0) > 300000 for c in case["calls"]) and now is not None else []) +
+                        (["no_logical_clock"] if now is None else []) +
+                        (["caller_extends_result"] if any(c.get("extend_result") for c in case["calls"]) else []),
                  sample={"calls": case["calls"], "text": case["text"], "t1": case["t1"] or case["validated"]} if nt else None)
 
 
+# ---------------------------------------------------------------- real scheduled turns: the T1 a turn used and its log record
+
+def spec_from_store(store, gid):
+    g = store.get_graph(gid)
+    return {"nodes": [{"id": n.id, "label": n.label, "tags": (n.attrs.get("tags") if isinstance(n.attrs, dict) and "tags" in n.attrs else None)}
+                      for n in g.nodes.values()],
+            "edges": [{"id": e.id, "src": e.src, "dst": e.dst, "w": e.weight, "rel": e.rel} for e in g.edges.values()]}
+
+
+@st.composite
+def turn_cases(draw):
+    """2-3 real turns of the orchestrator on one engine state (two agents with their own active graph lists), scheduler
+    on or off: the slice caps T1 sees are the ones the orchestrator derives from scheduler.budgets."""
+    ng = draw(st.integers(1, 3))
+    gids = draw(st.lists(st.sampled_from(GIDS), min_size=ng, max_size=ng, unique=True))
+    graphs = {gid: draw(graph_specs2(max_nodes=6, max_edges=8)) for gid in gids}
+    plant = draw(st.sampled_from(["kiwi", "fig", "nut"]))
+    for gid in gids:
+        ns = graphs[gid]["nodes"]
+        if ns and draw(st.sampled_from([True, True, False])):
+            ns[draw(st.integers(0, len(ns) - 1))]["label"] = draw(st.sampled_from([plant, plant.upper()]))
+    text = (draw(texts2(graphs)) + " " + plant).strip()
+    t1 = {"cache": {"enabled": draw(st.sampled_from([True, True, False])), "max_entries": draw(st.sampled_from([1, 8, 512])), "ttl_s": 300},
+          "decay": draw(st.sampled_from([{"mode": "exp_floor", "rate": 0.6, "floor": 0.05}, {"mode": "attn_quad", "alpha": 0.8}, {"mode": "exp_floor", "rate": 0.9, "floor": 0.0}]))}
+    if draw(st.booleans()):
+        t1["radius_cap"] = draw(st.sampled_from([0, 1, 2, 4]))
+    if draw(st.booleans()):
+        t1["queue_budget"] = draw(st.sampled_from([1, 2, 3, 10000]))
+    if draw(st.booleans()):
+        t1["iter_cap"] = draw(st.sampled_from([1, 2, 50]))
+    if draw(st.booleans()):
+        t1["node_budget"] = draw(st.sampled_from([0.5, 1.0, 1.5, 3.0]))
+    over = {"t1": t1}
+    sched = draw(st.sampled_from([True, True, True, False]))
+    if sched:
+        b = {}
+        if draw(st.sampled_from([True, True, False])):
+            b["t1_pops"] = draw(st.sampled_from([0, 1, 2, 4, None, 10000]))
+        if draw(st.sampled_from([True, True, False])):
+            b["t1_iters"] = draw(st.sampled_from([0, 1, 2, 50]))
+        over["scheduler"] = {"enabled": True, "budgets": b, "quantum_ms": 10 ** 6}
+        over["scheduler"]["budgets"]["wall_ms"] = 10 ** 6
+    if draw(st.sampled_from([True, False, False])):
+        over["perf"] = {"enabled": draw(st.booleans()), "parallel": {"enabled": True, "t1": True, "max_workers": 2}}
+    agents = {"A": gids, "B": list(draw(st.permutations(gids)))[:draw(st.integers(1, ng))]}
+    turns = [{"agent": draw(st.sampled_from(["A", "A", "B"])), "text": draw(st.sampled_from([text, text, text.upper(), draw(texts2(graphs))]))}
+             for _ in range(draw(st.integers(2, 3)))]
+    return {"graphs": graphs, "agents": agents, "over": over, "turns": turns}
+
+
+def check_turn(case, rec=None):
+    from harness import observe
+
+    with world.sandbox("vx_c12_") as d:
+        world.reset_engine_globals()
+        eng = observe.Engine({"graphs": case["graphs"], "eps": [], "agents": case["agents"]}, d)
+        cfg = eng.cfg(copy.deepcopy(case["over"]))
+        t1cfg = _plain(dict(cfg["t1"]))
+        sched = _plain(dict(cfg.get("scheduler") or {}))
+        slice_ = None
+        if sched.get("enabled"):
+            # documented derivation: the T1 budgets of scheduler.budgets that are set (None = no cap)
+            slice_ = {k: int(v) for k, v in (sched.get("budgets") or {}).items() if k in ("t1_pops", "t1_iters") and v is not None}
+        done = 0
+        hits = 0
+        binding = False
+        for j, t in enumerate(case["turns"], 1):
+            active = list(case["agents"][t["agent"]])
+            specs = {g: spec_from_store(eng.state["store"], g) for g in active}
+            before = world.store_digest(eng.state["store"])
+            captured = {}
+            import clematis.engine.orchestrator as orch
+            orig = orch.t1_propagate
+
+            def spy(ctx, state, text, _o=orig, _c=captured):
+                r = _o(ctx, state, text)
+                _c["after"] = world.store_digest(state["store"])
+                _c["res"] = r
+                return r
+
+            orch.t1_propagate = spy
+            try:
+                r = eng.turn(t["agent"], t["text"], cfg, j, world.NOW_MS + 1000 * j)
+            finally:
+                orch.t1_propagate = orig
+            if "res" not in captured:
+                raise Violation(f"turn {j}: T1 did not complete ({r.get('exc')})", case, "turn-t1-missing")
+            if captured["after"] != before:
+                raise Violation(f"turn {j}: t1_propagate modified the graph store", case, "store-modified")
+            res = captured["res"]
+            _need_counters(res, case, f"turn {j}: ")
+            _check_shape(res.graph_deltas, case, f"turn {j}: ")
+            want_ids, want_m = [], dict(ref.ZERO)
+            for g in active:
+                ids, m = ref_one_graph(specs[g], t["text"], t1cfg, slice_)
+                want_ids += ids
+                for k in want_m:
+                    want_m[k] += m[k]
+            got_ids = [x["id"] for x in res.graph_deltas]
+            got_m = {k: res.metrics[k] for k in COUNTERS}
+            if got_ids != want_ids:
+                raise Violation(f"turn {j} (agent {t['agent']}, text {t['text']!r}, scheduler budgets {slice_}): touched {got_ids}, documented rule "
+                                f"gives {want_ids}", case, "turn-ref-ids")
+            if got_m != want_m:
+                raise Violation(f"turn {j} (scheduler budgets {slice_}): counters {got_m}, documented rule gives {want_m}", case, "turn-ref-counters")
+            hits += int(res.metrics.get("cache_hits", 0) or 0)
+            qb, layers = ref.effective_caps(t1cfg, slice_)
+            if slice_ and (want_m["pops"] >= min(qb, 10 ** 4) or want_m["layer_cap_hits"]):
+                binding = True
+            done += 1
+            # the log record of the turn carries the counters of the work done
+            lines = [json.loads(x) for x in eng.logs().get("t1.jsonl", b"").decode("utf-8").splitlines() if x.strip()]
+            if len(lines) != done:
+                raise Violation(f"turn {j}: t1.jsonl has {len(lines)} records after {done} turns", case, "turn-log-count")
+            logged = {k: lines[-1].get(k) for k in COUNTERS}
+            if logged != want_m or lines[-1].get("graphs_touched") != len(active):
+                raise Violation(f"turn {j}: t1.jsonl record {logged} / graphs_touched={lines[-1].get('graphs_touched')}, work done {want_m} over "
+                                f"{len(active)} graphs", case, "turn-log-counters")
+    if rec is not None:
+        nt = bool(slice_) and binding
+        rec.case(nontrivial=nt, dig=digest(case) if nt else None,
+                 labels=["scheduler_on" if sched.get("enabled") else "scheduler_off"] + (["slice_binds"] if binding else []) +
+                        (["cache_hit"] if hits else []) + (["parallel"] if parallel_on(cfg) else []),
+                 sample={"over": case["over"], "turns": case["turns"]} if nt else None)
+
+
+def sub_turn(rec, seed, shard, nshards, n=40, shrink=True):
+    run_hypothesis(rec, seed, turn_cases(), lambda c: check_turn(c, rec), max_examples=n, shrink=shrink, name="turn")
+
+
+def replay_turn(case):
+    from checks.c03 import _fix_floats
+    check_turn(_fix_floats(case), None)
+
+
 def json_key(x):
-    import json
     return json.dumps(x, sort_keys=True)
 
 
@@ -428,6 +1223,7 @@ def replay_seq(case):
 
 
 SUBCHECKS = [
-    Sub("seq", sub_seq, quick={"n": 120}, thorough={"n": 2500}, shards_quick=4, shards_thorough=8, replay=replay_seq),
-    Sub("rule", sub_rule, quick={"n": 150}, thorough={"n": 2500}, shards_quick=8, shards_thorough=16, replay=replay_case),
+    Sub("seq", sub_seq, quick={"n": 250}, thorough={"n": 2500}, shards_quick=4, shards_thorough=8, replay=replay_seq),
+    Sub("rule", sub_rule, quick={"n": 250}, thorough={"n": 2500}, shards_quick=8, shards_thorough=16, replay=replay_case),
+    Sub("turn", sub_turn, quick={"n": 60}, thorough={"n": 600}, shards_quick=2, shards_thorough=4, replay=replay_turn),
 ]
